@@ -166,9 +166,13 @@ inductive HErr | keyError | valueError
     in `_get_initial_points`); a key that is not a parameter (`extra`) gives a sampler without
     target and one object under two names is initialised twice — both make
     `sampler.initialize()` raise `ValueError`. -/
-def validateStrategy (names : List N) (assigned : N → Option Nat) (extra : Bool) : Option HErr :=
+def validateStrategy (names : List N) (assigned : N → Option Nat) (extra : Bool)
+    (used : N → Bool := fun _ => false) : Option HErr :=
   if names.any (fun n => (assigned n).isNone) then some .keyError
   else if extra then some .valueError
+  -- a sampler object that is already initialized (it served another Gibbs sampler, or was run on
+  -- its own): `sampler.initialize()` raises "Sampler is already initialized."
+  else if names.any used then some .valueError
   else if (names.map assigned).eraseDups.length != names.length then some .valueError
   else none
 
